@@ -2,6 +2,7 @@ SPECIFICATION Spec
 CONSTANTS
   MaxBefore = 2
   MaxAfter = 2
+  MaxBeforeMarket = 1
 INVARIANT TypeOK
 INVARIANT C11_RejectsInvalid
 CONSTRAINT Emit
